@@ -27,8 +27,10 @@ META = {
               "libmodule_logger = empty variadic"],
     "bounds": "quick: table size 4, 3 keys (single-character strings), one operation / one whole iteration from an "
               "arbitrary table under the representation invariant; growth 4->8 with 2 or 3 entries; API scripts of 2 "
-              "operations from m_map_new on a table used as 4 slots.  thorough: additionally table size 8 with 4 keys "
-              "(put/remove/get/clear/free/iterator/iterate), growth 4->8 with 4 keys, scripts of 3 operations.  "
+              "operations from m_map_new on a table used as 4 slots; remove from a full-load table of size 8 (6 "
+              "entries, keys numbered in slot order, caller-owned keys).  thorough: additionally table size 8 with keys "
+              "numbered in slot order - get/contains/len/put/remove with 6 keys, clear/free and the iterator with 4, "
+              "m_map_iterate with 3 - growth 4->8 with 4 keys and 8->16 from 4 entries, scripts of 3 operations.  "
               "At most one growth per put (a second one would be reported).",
     "outside": "table sizes other than 4/8 (->8/16) in the solver runs - the shipped size 256 only through the native "
                "reproducers; more than 3-4 distinct keys; keys longer than one character (the hash is abstracted, "
@@ -41,6 +43,9 @@ META = {
                     "m_map_new by the script jobs)",
                     "script jobs: m_map_new's 256-slot table is used as a 4-slot one (table_size overwritten once, right "
                     "after m_map_new) - map.c has no API for the initial size and 256 symbolic slots did not finish",
+                    "table size 8 jobs: WLOG the i-th occupied slot holds key i - key identities are interchangeable "
+                    "(a key is its home homes[id], an arbitrary value; the operation's key is any of the NK); the size 4 "
+                    "jobs do not use this reduction",
                     "values handed to the map are non-NULL and distinct per entry; the caller keeps a key buffer "
                     "unchanged while the map refers to it (M_MAP_KEY_DUP excepted: the buffer is scribbled, checked)"],
 }
@@ -53,28 +58,48 @@ def _job(name, harness, defines, remove, tier, sym, bounds, unwind, fp=FP, **kw)
                timeout=600 if tier == "quick" else 3000, **kw)
 
 
-def _step_jobs(tier, ts, nk):
-    js = []
-    un = ts + 7
+SYM_NOTE = "; WLOG the i-th occupied slot holds key i (key identities are interchangeable)"
+
+
+def _step_job(tier, nm, ts, nk, sym=False, cnt=None, keymode=None):
+    """one job of map_step.c (nm in obs/remove/put/clearfree) or map_itr_step.c (itr/iterate)"""
     d = {"TS": ts, "NK": nk, "VF_NO_REHASH": None}
+    name = "C05.%s%s.T%d" % ("" if nm in ("itr", "iterate") else "step.", nm, ts)
     b = "table size %d, %d keys, growth paths cut" % (ts, nk)
-    for nm, ops, leak in (("obs", 0x07, False), ("remove", 0x08, False), ("put", 0x10, False), ("clearfree", 0x60, True)):
-        js.append(_job("C05.step.%s.T%d" % (nm, ts), "l0/map_step.c", dict(d, OPS=ops), [HASH, REHASH], tier,
-                       SYM_STATE + ["operation", "key", "value (new, or the one the key already has)"], b, un, leak=leak))
-    js.append(_job("C05.itr.T%d" % ts, "l0/map_itr_step.c", dict(d, OPS=1), [HASH, REHASH], tier,
-                   SYM_STATE + ["edit at every iterator position (none / m_map_itr_remove / m_map_itr_set_data)"], b, un))
-    js.append(_job("C05.iterate.T%d" % ts, "l0/map_itr_step.c", dict(d, OPS=2), [HASH, REHASH], tier,
-                   SYM_STATE + ["set of keys whose entry the callback removes"], b, un, fp=FP_CB))
-    return js
+    if sym:
+        d["VF_SYM_ORDER"] = None
+        name += ".N%d" % nk
+        b += SYM_NOTE
+    if cnt is not None:
+        d["CNT"] = cnt
+        name += ".C%d" % cnt
+        b += "; exactly %d entries" % cnt
+    if keymode is not None:
+        d["KEYMODE"] = keymode
+        name += ".K%d" % keymode
+        b += "; key ownership mode %d" % keymode
+    un = ts + 7
+    if nm == "itr":
+        return _job(name, "l0/map_itr_step.c", dict(d, OPS=1), [HASH, REHASH], tier,
+                    SYM_STATE + ["edit at every iterator position (none / m_map_itr_remove / m_map_itr_set_data)"], b, un)
+    if nm == "iterate":
+        return _job(name, "l0/map_itr_step.c", dict(d, OPS=2), [HASH, REHASH], tier,
+                    SYM_STATE + ["set of keys whose entry the callback removes"], b, un, fp=FP_CB)
+    ops, leak = {"obs": (0x07, False), "remove": (0x08, False), "put": (0x10, False), "clearfree": (0x60, True)}[nm]
+    return _job(name, "l0/map_step.c", dict(d, OPS=ops), [HASH, REHASH], tier,
+                SYM_STATE + ["operation", "key", "value (new, or the one the key already has)"], b, un, leak=leak)
 
 
-def _grow_job(tier, ts, nk, cnt, **kw):
+def _grow_job(tier, ts, nk, cnt, sym=False):
     d = {"TS": ts, "NK": nk, "CNT": cnt}
     if ts <= cnt + cnt // 3:
         d["EXPECT_GROWN"] = None
+    b = "table size %d -> %d, %d keys, %d entries before the put" % (ts, 2 * ts, nk, cnt)
+    if sym:
+        d["VF_SYM_ORDER"] = None
+        b += SYM_NOTE
     return _job("C05.grow.T%d.N%d.C%d" % (ts, nk, cnt), "l0/map_grow.c", d, [HASH], tier,
-                SYM_STATE + ["key", "value"], "table size %d -> %d, %d keys, %d entries before the put" % (ts, 2 * ts, nk, cnt),
-                2 * ts + 6, **kw)
+                SYM_STATE + ["key", "value"], b, 2 * ts + 6)
 
 
 def _script_job(tier, L, keymode=None):
@@ -88,12 +113,18 @@ def _script_job(tier, L, keymode=None):
 
 
 def jobs(tier):
-    js = _step_jobs(tier, 4, 3)
+    # table size 4, 3 keys, nothing fixed: every job below is fully symbolic in the pre-state
+    js = [_step_job(tier, nm, 4, 3) for nm in ("obs", "remove", "put", "clearfree", "itr", "iterate")]
     js += [_grow_job(tier, 4, 3, 3), _grow_job(tier, 4, 3, 2)]
     js += [_script_job(tier, 2)]
+    # clusters longer than table_size/2 only exist from table size 8 with 5-6 entries: remove from a table at full
+    # load (6 of 8 slots), caller-owned keys
+    js += [_step_job(tier, "remove", 8, 6, sym=True, cnt=6, keymode=0)]
     if tier == "thorough":
-        js += _step_jobs(tier, 8, 4)
-        js += [_grow_job(tier, 4, 4, 3), _grow_job(tier, 4, 4, 2)]
+        js += [_step_job(tier, nm, 8, 6, sym=True) for nm in ("obs", "remove", "put")]
+        js += [_step_job(tier, "clearfree", 8, 4, sym=True), _step_job(tier, "itr", 8, 4, sym=True),
+               _step_job(tier, "iterate", 8, 3, sym=True)]
+        js += [_grow_job(tier, 4, 4, 3), _grow_job(tier, 4, 4, 2), _grow_job(tier, 8, 5, 4, sym=True)]
         js += [_script_job(tier, 3, k) for k in (0, 1, 2)]
     return js
 
